@@ -80,8 +80,8 @@ Section Flake.
   (* time of step k *)
   Definition tk (k : Z) : A := nofZ o k * p_dt P.
 
-  Definition vial_update (Tall : list A) (k : Z) (Text Tshelf : A) (c : vconst) (v : vstate) (dec : bool) : vstate :=
-    let q := heat Tall (c_nb c) (vT v) (c_hext c) (c_hsh c) Text Tshelf in
+  (* bookkeeping of one vial for one step, given its net heat flow q *)
+  Definition vial_update_q (k : Z) (q : A) (v : vstate) (dec : bool) : vstate :=
     (* t_solidification is written before the update of this step, for already solid vials *)
     let st1 :=
       if neqb o (vS v) zero then vst v else
@@ -97,6 +97,9 @@ Section Flake.
                | _ => st1
                end in
     MkV T' s' st2.
+
+  Definition vial_update (Tall : list A) (k : Z) (Text Tshelf : A) (c : vconst) (v : vstate) (dec : bool) : vstate :=
+    vial_update_q k (heat Tall (c_nb c) (vT v) (c_hext c) (c_hsh c) Text Tshelf) v dec.
 
   Fixpoint map3 {X Y Z W} (f : X -> Y -> Z -> W) (l1 : list X) (l2 : list Y) (l3 : list Z) : list W :=
     match l1, l2, l3 with
